@@ -121,12 +121,17 @@ def scalar_chi2_obligation(cls):
 
 def graph_sum_obligation(k, directed=False):
     def fn(it):
+        from ..algebra import custom_edge
+        from ..interp import sym_pose
+        # a chain built by the real constructors: vertices 0..k, edge i joins i and i+1
+        verts = [it.construct("Vertex", [Poly.const(j), sym_pose("PoseR2", "x%d" % j)]) for j in range(k + 1)]
         edges = []
         for i in range(k):
-            o = Obj("BaseEdge")
+            o = custom_edge(it, [Poly.const(i), Poly.const(i + 1)], None, None, None)
             o.stubs["calc_chi2"] = (lambda i=i: Poly.var("chi2_%d" % i))
+            o.stubs["is_valid"] = lambda: True
             edges.append(o)
-        g = Obj("Graph", _edges=edges, _vertices=[], _chi2=None)
+        g = it.construct("Graph", [edges, verts])
         got = it.call_method(g, "calc_chi2", [])
         exp = sum((Poly.var("chi2_%d" % i) for i in range(k)), Poly())
         require_same(got, exp, "Graph.calc_chi2 over %d edges is not the sum of the edges' chi^2" % k)
